@@ -9,6 +9,7 @@ from .. import model as M
 from ..codec import src, unsrc
 from ..common import safe_repr, shard_items, tname
 from ..runner import Acc, parallel
+from ..values import cp
 from ..subst import (carries, clean, generated, is_plain, subst_values, third_values, try_subst)
 from ..terms import E, fp, show, try_build
 from ..universe import INT, NONE, S, STR, call, ln, universe
@@ -90,7 +91,9 @@ def kept_keys_ok(s, r, v):
 def examine(t, s, v, tier, rng, want):
     """All violations (prop, sig-tail, detail) for one (schema, value)."""
     out = []
-    res = try_subst(s, v)
+    given = v
+    v = cp(v)             # the oracles look at the value as it was given (a dict subclass with
+    res = try_subst(s, given)   # __missing__ may be changed by a mere lookup)
     tcls = show(t)
     if res[0] == "exc":
         if "C12" in want:
